@@ -516,6 +516,13 @@ func (Engine) Run(t *tape.Tape, o eng.Opts) *eng.Result {
 			if !okLoc || strings.HasSuffix(q.Path, "/") {
 				viol("redirect-location", "redirect to "+quote(loc)+" instead of the slash-terminated form "+quote(want)+" of a slash-less directory path\n  "+desc)
 			}
+			if under {
+				// also while the tree changes: a directory that had gone (removed, or replaced by a
+				// regular file) before this request even arrived cannot be what is being redirected
+				if t := d.goneDir[strings.Trim(path.Clean("/"+rest), "/")]; t != 0 && t < q.StartStamp {
+					viol("redirect-non-directory", "a path that had stopped being a directory before the request arrived was redirected\n  "+desc)
+				}
+			}
 			if !anyMutation && under {
 				if isDir, ok := dirOK(d, strings.Trim(path.Clean("/"+rest), "/")); ok && !isDir {
 					viol("redirect-non-directory", "a path that is not a directory was redirected\n  "+desc)
